@@ -1,10 +1,15 @@
 #!/bin/sh
-# try_mutant.sh <patch.diff> <Cnn> [tier]  -- apply a seeded change to /repo, run the check, undo it straight afterwards.
+# try_mutant.sh <patch.diff> <Cnn> [tier]  -- run the property's check against a seeded change.
+# The change is applied to a scratch worktree of /repo HEAD (CGV_REPO points the drivers at it), so /repo itself is
+# never left modified; this is equivalent to `git -C /repo apply; ./check; git -C /repo checkout -- .`.
 P=$1; ID=$2; TIER=${3:-quick}
-cd /repo || exit 2
-git diff --quiet || { echo "/repo has uncommitted changes"; exit 2; }
-git apply "$P" || { echo "patch does not apply"; exit 2; }
-cd /verif && ./check "$ID" --tier "$TIER" > /tmp/try_mutant_$ID.log 2>&1; rc=$?
-git -C /repo checkout -- .
-grep -E "^(VIOLATION|KNOWN|MACHINERY|C[0-9]+ )" /tmp/try_mutant_$ID.log | cut -c1-220 | head -8
+ROOT=${VERIF_ROOT:-/verif}
+WT=$(mktemp -d /tmp/wtm.XXXXXX)
+git -C /repo worktree add -q --detach "$WT" HEAD || exit 2
+if ! git -C "$WT" apply "$P"; then echo "patch does not apply"; git -C /repo worktree remove --force "$WT"; exit 2; fi
+LOG=$(mktemp /tmp/try_mutant_${ID}.XXXXXX)
+(cd "$ROOT" && CGV_REPO="$WT" ./check "$ID" --tier "$TIER" --no-evidence > "$LOG" 2>&1); rc=$?
+git -C /repo worktree remove --force "$WT"
+grep -E "^(VIOLATION|KNOWN|MACHINERY|C[0-9]+ )" "$LOG" | cut -c1-220 | head -8
+rm -f "$LOG"
 echo "exit=$rc"
